@@ -25,7 +25,7 @@ def generate(streams, tier):
     big = tier == "thorough"
     r = streams.s("kind")
     world = W.gen_bn(streams, max_n=5, min_n=1, max_card=3, max_parents=3, max_joint=512, label_mode=r.choice(["str", "str", "short", "int"]),
-                     state_modes=[("default", 2), ("str", 3), ("int_sorted", 1)])
+                     state_modes=[("default", 2), ("str", 3), ("int_sorted", 1), ("int", 2)])
     n = world["n"]
     if n >= 2 and r.random() < 0.4:
         world["latents"] = sorted(r.sample(range(n), r.randint(1, max(1, n // 2))))
@@ -71,7 +71,7 @@ def generate(streams, tier):
             op["ev"] = {str(a): b for a, b in ev.items()}
         if k == "forward" and n >= 2 and rw.random() < 0.3:
             cols = rw.sample(range(n), rw.randint(1, n - 1))
-            op["partial"] = {"cols": cols, "seed": rw.randrange(2**31)}
+            op["partial"] = {"cols": cols, "seed": rw.randrange(2**31), "index": rw.choice(["default", "default", "shuffled", "offset", "labels"])}
         if k == "simulate":
             cand = [v for v in range(n) if str(v) not in op["ev"]]
             op["do"] = {}
@@ -215,8 +215,21 @@ def execute(case, ctx):
                     if cols_p:
                         data = {L(v): [rp.randrange(card[v]) for _ in range(size)] for v in cols_p}
                         # partial samples are given as state numbers (the sampler works on numbers internally)
-                        kw["partial_samples"] = pd.DataFrame(data)
+                        # row i of the partial samples is row i of the result, whatever the frame's index labels are
+                        imode = op["partial"].get("index", "default")
+                        index = None
+                        if imode == "shuffled":
+                            index = list(range(size))
+                            rp.shuffle(index)
+                        elif imode == "offset":
+                            index = [7 + 3 * j for j in range(size)]
+                        elif imode == "labels":
+                            index = ["r%d" % j for j in range(size)]
+                        kw["partial_samples"] = pd.DataFrame(data, index=index)
+                        fixed = {v: list(data[L(v)]) for v in cols_p}
                         ctx.probe("partial_samples")
+                        if index is not None:
+                            ctx.probe("partial_samples_index_" + imode)
                 if k == "law_forward":
                     inc = True
                 a, b = twice(lambda: sampler().forward_sample(size=size, include_latents=inc, seed=seed, show_progress=False, **kw))
@@ -224,6 +237,21 @@ def execute(case, ctx):
                 if not a.equals(b):
                     ctx.fail("reproducible", f"{PROP}:not_reproducible:forward", {"size": size, "seed": seed})
                 rows = check_frame(a, expect_cols(inc), size, "forward", support="partial_samples" not in kw)
+                if rows is not None and fixed:
+                    bad = None
+                    for j, r_ in enumerate(rows):
+                        for v, colv in fixed.items():
+                            if v in r_ and r_[v] != colv[j]:
+                                bad = bad or {"what": "supplied column not kept row by row", "var": v, "row": j, "want": colv[j], "got": r_[v]}
+                        if len(r_) == n and bad is None:
+                            for v in range(n):
+                                if v not in fixed and cond_prob(world, v, r_) <= 0.0:
+                                    bad = {"what": "sampled value impossible given its parents", "var": v, "row": [r_[u] for u in range(n)], "parents": world["parents"][v]}
+                                    break
+                        if bad:
+                            break
+                    if bad:
+                        ctx.fail("partial_samples", f"{PROP}:partial_samples:forward", bad)
                 if rows is not None and k == "law_forward":
                     _law(ctx, world, rows, None, "forward")
             elif k in ("rejection", "law_rejection"):
